@@ -22,7 +22,7 @@ import sys
 
 from common import KERNEL_TB, REPO, VERIF, Driver, Report, build_driver, check_props, coq_make, known_findings, regen_all, scan_forbidden
 
-SI_DRIVER = ("sidriver", "ExtractSi", ["simodel"], ["Model/SI.vo", "Model/PyPrelude.vo", "Gen/SIHelpers.vo", "Model/Lift.vo", "Proofs/LiftSI.vo"])
+SI_DRIVER = ("sidriver", "ExtractSi", ["simodel"], ["Model/SI.vo", "Model/PyPrelude.vo", "Gen/SIHelpers.vo", "Model/Lift.vo", "Proofs/LiftSI.vo", "Proofs/SIZext.vo"])
 DOMAIN_SEED = 20260922       # the domains are fixed (independent of VERIF_SEED) so that known findings are stable
 
 
@@ -541,6 +541,11 @@ def correspondence(prop, tier, seed, drv, SI, stats):
             if k[1] is None:
                 continue
             a = mk(SI, k)
+            m = norm_model(drv.ask(["zext", si_sx(k), k[0] + 1]))
+            r = real_res(lambda: a.zero_extend(k[0] + 1))
+            stats["corr_zext"] += 1
+            if m != r:
+                return {"kind": "model/implementation mismatch", "op": "zext", "a": keystr(k), "model": m, "real": r}
             for op, f in (("neg", lambda: a.neg()), ("mk", lambda: a.copy())):
                 m = norm_model(drv.ask([op, si_sx(k)]))
                 r = real_res(f)
@@ -624,7 +629,7 @@ def run(prop, tier, seed, replay, make_target, rule_text, trusted, assumptions):
             return 1
         return 0
     regen_all()
-    ok_make, log = coq_make([make_target])
+    ok_make, log = coq_make([make_target, "Proofs/SIZext.vo", "Proofs/LiftSI.vo"])
     pr = check_props(prop) if ok_make else {"ok": False, "obligations": [
         {"name": prop + "_*", "closed": False, "axioms": ["<does not compile>"], "ok": False}], "log": log[-3000:]}
     rep.obligations(pr, "make %s && coqc -R coq CV coq/Props/%s.v (Print Assumptions)" % (make_target, prop))
